@@ -1,1 +1,365 @@
-/- C15 — theorems (placeholder until the property is built). -/
+/-
+  C15 — A multiscale step really processes num_scales scales, coarse to fine.
+
+  * counts and order: corollaries of C01's trace theorem (`run_accepts`) on the tables of the source;
+  * sizes and interval arithmetic: algebra over Nat / Rat for every size, factor and number of scales;
+  * per-pixel interval of a finer level: the parent chosen by `zoom(order=0)` is at most one pixel away
+    from the geometric parent, and the upsampled grid always covers the finer image.
+  The per-pixel rule itself (window min/max ± marge, user interval for invalid/border parents) is compared
+  between implementation, model (`nextLevelGrids`) and specification (`specInterval`) by the harness.
+-/
+import PandoraModel.Model.Multiscale
+import PandoraModel.Properties.C01
+import Mathlib.Tactic.Linarith
+import Mathlib.Tactic.FieldSimp
+import Mathlib.Tactic.Ring
+import Mathlib.Algebra.Order.Field.Rat
+
+namespace Pandora.C15
+open Pandora.Multiscale Pandora.Machine
+
+/-! ### 1. Sizes of the levels -/
+
+theorem levelSizesFine_length (n f : Nat) : ∀ k, (levelSizesFine n f k).length = k := by
+  intro k
+  induction k generalizing n with
+  | zero => rfl
+  | succ k ih => simp [levelSizesFine, ih]
+
+/-- exactly `num_scales` levels -/
+theorem levelSizes_length (n f k : Nat) : (levelSizes n f k).length = k := by
+  simp [levelSizes, levelSizesFine_length]
+
+/-- the last level processed has the original size -/
+theorem levelSizes_last (n f k : Nat) : (levelSizes n f (k + 1)).getLast? = some n := by
+  simp [levelSizes, levelSizesFine]
+
+theorem ceilDiv_le (n f : Nat) (hf : 1 ≤ f) : ceilDiv n f ≤ n := by
+  unfold ceilDiv
+  rw [Nat.div_le_iff_le_mul_add_pred (by omega : 0 < f)]
+  have : n ≤ f * n := Nat.le_mul_of_pos_left n hf
+  omega
+
+/-- each level is the ceiling of the finer one divided by the factor; sizes never grow when going coarser -/
+theorem levelSizesFine_step (n f k : Nat) :
+    levelSizesFine n f (k + 2) = n :: ceilDiv n f :: levelSizesFine (ceilDiv (ceilDiv n f) f) f k := by
+  simp [levelSizesFine]
+
+/-- the grid upsampled by the factor always covers the finer level (the crop done by `cv_masked` is well
+    defined): `n ≤ f * ceil(n / f)` -/
+theorem zoom_covers (n f : Nat) (hf : 1 ≤ f) : n ≤ f * ceilDiv n f := by
+  unfold ceilDiv
+  have h := Nat.div_add_mod (n + f - 1) f
+  have hm := Nat.mod_lt (n + f - 1) (by omega : f > 0)
+  omega
+
+/-! ### 2. Interval arithmetic of run_prepare / matching_cost_prepare / run_multiscale -/
+
+/-- after `k` multiplications by the factor the stored bound is `user / factor^(num_scales - k)` -/
+theorem boundAfter_eq (user : Rat) (f ns k : Nat) (hf : f ≠ 0) (hk : k ≤ ns) :
+    boundAfter user f ns k = user / ((f : Rat) ^ (ns - k)) := by
+  unfold boundAfter prepareBound
+  have hf' : (f : Rat) ≠ 0 := by exact_mod_cast hf
+  have hsplit : (f : Rat) ^ ns = (f : Rat) ^ (ns - k) * (f : Rat) ^ k := by
+    rw [← pow_add]; congr 1; omega
+  rw [hsplit]
+  field_simp
+
+/-- the coarsest level searches the user interval divided by `factor^(num_scales - 1)` -/
+theorem coarsest_interval (user : Rat) (f ns : Nat) (hf : f ≠ 0) (hns : 1 ≤ ns) :
+    boundAfter user f ns 1 = user / ((f : Rat) ^ (ns - 1)) := boundAfter_eq user f ns 1 hf hns
+
+/-- the user interval handed to `disparity_range` after the level of scale `s` (the `(ns - s)`-th
+    multiplication) is the user interval of that level: `user / factor^s` -/
+theorem user_interval_at_scale (user : Rat) (f ns s : Nat) (hf : f ≠ 0) (hs : s ≤ ns) :
+    boundAfter user f ns (ns - s) = user / ((f : Rat) ^ s) := by
+  rw [boundAfter_eq user f ns (ns - s) hf (by omega)]
+  congr 2; omega
+
+/-- at the original resolution the whole user interval is back -/
+theorem finest_interval (user : Rat) (f ns : Nat) (hf : f ≠ 0) : boundAfter user f ns ns = user := by
+  rw [boundAfter_eq user f ns ns hf (le_refl _)]; simp
+
+/-! ### 3. The parent chosen by `zoom(order=0)` -/
+
+/-- facts shared by the two theorems below, without truncating subtraction:
+    `n = m + 1`, `f * n = D + 1`, `i ≤ D`, `f * m ≤ D`, `D = f * m + (f - 1)` -/
+theorem zoomIndex_eq (m f i D : Nat) (hD : f * (m + 1) = D + 1) (hD1 : 1 ≤ D) :
+    zoomIndex (m + 1) f i = (2 * (i * m) + D) / (2 * D) := by
+  unfold zoomIndex
+  have h1 : ¬ f * (m + 1) ≤ 1 := by omega
+  simp only [h1, if_false, Nat.add_sub_cancel]
+  have h2 : f * (m + 1) - 1 = D := by omega
+  rw [h2, Nat.mul_assoc]
+
+/-- the coarse sample copied into fine index `i` exists ... -/
+theorem zoomIndex_lt (n f i : Nat) (hn : 1 ≤ n) (hf : 1 ≤ f) (hi : i < f * n) : zoomIndex n f i < n := by
+  obtain ⟨m, rfl⟩ : ∃ m, n = m + 1 := ⟨n - 1, by omega⟩
+  by_cases h : f * (m + 1) ≤ 1
+  · simp [zoomIndex, h]
+  · obtain ⟨D, hD⟩ : ∃ D, f * (m + 1) = D + 1 := ⟨f * (m + 1) - 1, by omega⟩
+    have hD1 : 1 ≤ D := by omega
+    rw [zoomIndex_eq m f i D hD hD1, Nat.div_lt_iff_lt_mul (by omega : 0 < 2 * D)]
+    have hiD : i ≤ D := by omega
+    have h1 : i * m ≤ D * m := Nat.mul_le_mul_right m hiD
+    have e : (m + 1) * (2 * D) = 2 * (D * m) + 2 * D := by ring
+    omega
+
+/-- ... and is at most one pixel away from the geometric parent `i / f` -/
+theorem parent_near (n f i : Nat) (hn : 1 ≤ n) (hf : 1 ≤ f) (hi : i < f * n) : parentNear n f i = true := by
+  obtain ⟨m, rfl⟩ : ∃ m, n = m + 1 := ⟨n - 1, by omega⟩
+  unfold parentNear
+  simp only [Bool.and_eq_true, decide_eq_true_eq]
+  by_cases h : f * (m + 1) ≤ 1
+  · have hf1 : f * (m + 1) = 1 := by
+      have : 1 ≤ f * (m + 1) := Nat.mul_pos (by omega) (by omega)
+      omega
+    have hi0 : i = 0 := by omega
+    subst hi0
+    simp [zoomIndex, h]
+  · obtain ⟨D, hD⟩ : ∃ D, f * (m + 1) = D + 1 := ⟨f * (m + 1) - 1, by omega⟩
+    have hD1 : 1 ≤ D := by omega
+    rw [zoomIndex_eq m f i D hD hD1]
+    have hiD : i ≤ D := by omega
+    have hfm : f * m + f = D + 1 := by rw [← hD]; ring
+    -- g = i / f :  g * f ≤ i < (g + 1) * f
+    obtain ⟨g, hg⟩ : ∃ g, g = i / f := ⟨_, rfl⟩
+    rw [← hg]
+    have hdm := Nat.div_add_mod i f
+    have hml := Nat.mod_lt i (by omega : f > 0)
+    rw [← hg] at hdm
+    have hgl : g * f ≤ i := by
+      have e : g * f = f * g := Nat.mul_comm g f
+      omega
+    have hgu : i < (g + 1) * f := by
+      have e : (g + 1) * f = f * g + f := by ring
+      omega
+    -- products as atoms
+    have hA : f * (i * m) = i * (f * m) := by ring
+    have hB : i * (f * m) + i * f = i * D + i := by
+      have : i * (f * m + f) = i * (D + 1) := by rw [hfm]
+      calc i * (f * m) + i * f = i * (f * m + f) := by ring
+        _ = i * (D + 1) := this
+        _ = i * D + i := by ring
+    constructor
+    · -- zoomIndex ≤ g + 1   ⇐   i * m < (g + 1) * D
+      have h1 : f * (i * m) < f * ((g + 1) * D) := by
+        have e1 : f * (i * m) ≤ i * D := by
+          -- i * (f m) ≤ i * D  since f m ≤ D
+          have : f * m ≤ D := by omega
+          calc f * (i * m) = i * (f * m) := hA
+            _ ≤ i * D := Nat.mul_le_mul_left i this
+        have e2 : i * D < (g + 1) * f * D := Nat.mul_lt_mul_of_pos_right hgu (by omega)
+        calc f * (i * m) ≤ i * D := e1
+          _ < (g + 1) * f * D := e2
+          _ = f * ((g + 1) * D) := by ring
+      have h2 : i * m < (g + 1) * D := Nat.lt_of_mul_lt_mul_left h1
+      have : (2 * (i * m) + D) / (2 * D) < g + 2 := by
+        rw [Nat.div_lt_iff_lt_mul (by omega : 0 < 2 * D)]
+        have e : (g + 2) * (2 * D) = 2 * ((g + 1) * D) + 2 * D := by ring
+        omega
+      exact Nat.lt_succ_iff.mp this
+    · -- g ≤ zoomIndex + 1
+      by_cases hg0 : g = 0
+      · subst hg0; exact Nat.zero_le _
+      · obtain ⟨g', rfl⟩ : ∃ g', g = g' + 1 := ⟨g - 1, by omega⟩
+        have hq : g' ≤ (2 * (i * m) + D) / (2 * D) := by
+          rw [Nat.le_div_iff_mul_le (by omega : 0 < 2 * D)]
+          -- g' * D ≤ i * m  :  (g'+1) f D ≤ i D = i f m + i (f - 1) ≤ f (i m) + f D
+          have h3 : (g' + 1) * f * D ≤ i * D := Nat.mul_le_mul_right D hgl
+          have h4 : i * f ≤ D * f + i := by
+            have := Nat.mul_le_mul_right f hiD
+            omega
+          have h5 : f * (g' * D) ≤ f * (i * m) := by
+            have e1 : (g' + 1) * f * D = f * (g' * D) + f * D := by ring
+            have e2 : D * f = f * D := Nat.mul_comm D f
+            omega
+          have h6 : g' * D ≤ i * m := Nat.le_of_mul_le_mul_left h5 (by omega)
+          have e : g' * (2 * D) = 2 * (g' * D) := by ring
+          omega
+        exact Nat.succ_le_succ hq
+
+/-! ### 4. Counts and order (corollaries of C01 on the tables of the source) -/
+
+/-- the executions of the matching cost step on the left data, with their scales -/
+def mcScales (tr : Trace) : List Nat :=
+  tr.filterMap fun e =>
+    match e with
+    | Event.run cb _ scale false => if cb == "matching_cost_run" then some scale else none
+    | _ => none
+
+theorem mcScales_append (a b : Trace) : mcScales (a ++ b) = mcScales a ++ mcScales b := by
+  simp [mcScales, List.filterMap_append]
+
+theorem mcScales_sideEvents (cb n : String) (s : Nat) (r : Bool) :
+    mcScales (sideEvents cb n s r) = if cb == "matching_cost_run" then [s] else [] := by
+  unfold sideEvents mcScales
+  cases r <;> by_cases h : cb = "matching_cost_run" <;> simp [h]
+
+theorem mcScales_stepEvents (n : String) (s : Nat) (r : Bool) (k : Kind)
+    (hk : Kind.ofName? (kindOf n) = some k) :
+    mcScales (stepEvents n s r) = if k = Kind.matchingCost then [s] else [] := by
+  unfold stepEvents
+  rw [hk]
+  cases k
+  case multiscale =>
+    simp only [reduceCtorEq, if_false]
+    split
+    · rfl
+    · rw [mcScales_sideEvents]; rfl
+  all_goals
+    simp only [runCbsOf, Kind.name, List.flatMap_cons, List.flatMap_nil, List.append_nil,
+      mcScales_append, mcScales_sideEvents, reduceCtorEq, if_false, if_true]
+    rfl
+
+/-- from `cost_volume` or `disp_map` no matching cost step can follow -/
+theorem isPath_no_mc : ∀ (names : List String) (st : St), st ≠ St.begin → isPath st names = true →
+    ∀ m ∈ names, Kind.ofName? (kindOf m) ≠ some Kind.matchingCost := by
+  intro names
+  induction names with
+  | nil => intro _ _ _ m hm; simp at hm
+  | cons n ns ih =>
+    intro st hst hp m hm
+    simp only [isPath] at hp
+    cases hk : Kind.ofName? (kindOf n) with
+    | none => simp [hk] at hp
+    | some k =>
+      simp only [hk] at hp
+      cases hd : documented st k with
+      | none => simp [hd] at hp
+      | some st' =>
+        simp only [hd] at hp
+        have hst' : st' ≠ St.begin := by
+          cases st <;> cases k <;> simp [documented] at hd <;> subst hd <;> simp
+        simp only [List.mem_cons] at hm
+        rcases hm with rfl | hm
+        · rw [hk]
+          intro h
+          have : k = Kind.matchingCost := by simpa using h
+          subst this
+          cases st <;> simp [documented] at hd
+          exact hst rfl
+        · exact ih st' hst' hp m hm
+
+theorem mcScales_flatMap_none (names : List String) (s : Nat) (r : Bool)
+    (hk : ∀ m ∈ names, ∃ k, Kind.ofName? (kindOf m) = some k ∧ k ≠ Kind.matchingCost) :
+    mcScales (names.flatMap fun n => stepEvents n s r) = [] := by
+  induction names with
+  | nil => rfl
+  | cons n ns ih =>
+    obtain ⟨k, hkk, hne⟩ := hk n (by simp)
+    simp only [List.flatMap_cons, mcScales_append, mcScales_stepEvents n s r k hkk, hne, if_false,
+      List.nil_append]
+    exact ih (fun m hm => hk m (by simp [hm]))
+
+theorem isPath_kinds : ∀ (names : List String) (st : St), isPath st names = true →
+    ∀ m ∈ names, ∃ k, Kind.ofName? (kindOf m) = some k := by
+  intro names
+  induction names with
+  | nil => intro _ _ m hm; simp at hm
+  | cons n ns ih =>
+    intro st hp m hm
+    simp only [isPath] at hp
+    cases hk : Kind.ofName? (kindOf n) with
+    | none => simp [hk] at hp
+    | some k =>
+      simp only [hk] at hp
+      cases hd : documented st k with
+      | none => simp [hd] at hp
+      | some st' =>
+        simp only [hd] at hp
+        simp only [List.mem_cons] at hm
+        rcases hm with rfl | hm
+        · exact ⟨k, hk⟩
+        · exact ih st' hp m hm
+
+theorem uptoMultiscale_subset (names : List String) : ∀ m ∈ uptoMultiscale names, m ∈ names := by
+  induction names with
+  | nil => intro m hm; simp [uptoMultiscale] at hm
+  | cons n ns ih =>
+    intro m hm
+    simp only [uptoMultiscale] at hm
+    split at hm
+    · simp at hm; simp [hm]
+    · simp only [List.mem_cons] at hm
+      rcases hm with rfl | hm
+      · simp
+      · simp [ih m hm]
+
+theorem uptoMultiscale_cons_ne (n : String) (ns : List String) (h : (kindOf n == Kind.multiscale.name) = false) :
+    uptoMultiscale (n :: ns) = n :: uptoMultiscale ns := by
+  simp [uptoMultiscale, h]
+
+/-- in one scale block (the steps up to the multiscale step, or the whole pipeline) of an accepted
+    pipeline, the matching cost step is executed exactly once -/
+theorem mcScales_block (n : String) (rest sub : List String) (s : Nat) (r : Bool)
+    (hp : isPath .begin (n :: rest) = true) (hsub : ∀ m ∈ sub, m ∈ rest) :
+    mcScales ((n :: sub).flatMap fun x => stepEvents x s r) = [s] := by
+  simp only [isPath] at hp
+  cases hk : Kind.ofName? (kindOf n) with
+  | none => simp [hk] at hp
+  | some k =>
+    simp only [hk] at hp
+    cases hd : documented .begin k with
+    | none => simp [hd] at hp
+    | some st' =>
+      simp only [hd] at hp
+      have hkmc : k = Kind.matchingCost := by cases k <;> simp [documented] at hd <;> rfl
+      have hst' : st' ≠ St.begin := by
+        subst hkmc; simp [documented] at hd; subst hd; simp
+      have hno := isPath_no_mc rest st' hst' hp
+      have hkinds := isPath_kinds rest st' hp
+      simp only [List.flatMap_cons, mcScales_append, mcScales_stepEvents n s r k hk, hkmc, if_true]
+      rw [mcScales_flatMap_none sub s r]
+      · rfl
+      · intro m hm
+        obtain ⟨km, hkm⟩ := hkinds m (hsub m hm)
+        exact ⟨km, hkm, fun h => hno m (hsub m hm) (h ▸ hkm)⟩
+
+/-- `[k, k-1, …, 1]` -/
+def countdown : Nat → List Nat
+  | 0 => []
+  | k + 1 => (k + 1) :: countdown k
+
+/-- **The matching cost step is executed once per scale, from the coarsest scale down to 0**, in the
+    trace C01 proves for every accepted pipeline containing a multiscale step (`run_accepts`). -/
+theorem scales_executed (n : String) (rest : List String) (numScales : Nat) (r : Bool)
+    (hp : isPath .begin (n :: rest) = true) (hn : 1 ≤ numScales) :
+    mcScales (expectedRun (n :: rest) numScales r) = countdown (numScales - 1) ++ [0] := by
+  unfold expectedRun
+  rw [mcScales_append]
+  have hlast : mcScales ((n :: rest).flatMap fun x => stepEvents x 0 r) = [0] :=
+    mcScales_block n rest rest 0 r hp (fun m hm => hm)
+  rw [hlast]
+  congr 1
+  have hn_ne : (kindOf n == Kind.multiscale.name) = false := by
+    simp only [isPath] at hp
+    cases hk : Kind.ofName? (kindOf n) with
+    | none => simp [hk] at hp
+    | some k =>
+      simp only [hk] at hp
+      have hkn := C01.ofName_some hk
+      cases k <;> simp [documented] at hp <;> (rw [hkn]; decide)
+  generalize numScales - 1 = c
+  induction c with
+  | zero => rfl
+  | succ c ih =>
+    simp only [expectedCoarse, mcScales_append, countdown]
+    rw [uptoMultiscale_cons_ne n rest hn_ne]
+    rw [mcScales_block n rest (uptoMultiscale rest) (c + 1) r hp (uptoMultiscale_subset rest), ih]
+    rfl
+
+/-- the steps configured after the (first) multiscale step take effect at scale 0 only: every coarse
+    scale block contains the steps up to the multiscale step and nothing else -/
+theorem coarse_blocks_stop_at_multiscale (names : List String) (r : Bool) (c : Nat) :
+    expectedCoarse names r (c + 1) =
+      (uptoMultiscale names).flatMap (fun n => stepEvents n (c + 1) r) ++ expectedCoarse names r c := rfl
+
+/-! ### Non-vacuity -/
+
+example : levelSizes 17 2 3 = [5, 9, 17] := by decide
+example : isPath .begin ["matching_cost", "disparity", "multiscale", "filter"] = true := by decide
+example : mcScales (expectedRun ["matching_cost", "disparity", "multiscale", "filter"] 3 true) = [2, 1, 0] := by decide
+example : parentNear 4 3 2 = true ∧ zoomIndex 4 3 2 = 1 ∧ 2 / 3 = 0 := by decide
+
+end Pandora.C15
